@@ -16,7 +16,7 @@ from mc.core import CaseResult, Failure, HarnessError
 PROPERTY = "C13"
 LEVEL = "model_checking"
 RULE = ("all operation sequences to the stated depth over {new(A|B|C|D|E), drop(oldest|newest), sweep, query(T), clear} "
-        "on the hierarchy A, B(A), C(A), D(B,C), E(D), from the empty state and from pre-populated states (replayed, "
+        "on the hierarchy A, B(A), C(A), D(B,C), E(D) (instances of D and E are falsy, like an empty container), from the empty state and from pre-populated states (replayed, "
         "nothing copied); every query and a final query for every type is compared, as a multiset of object ids, with "
         "the live instances created since the last clear according to the harness's weak references. No state "
         "de-duplication (the future depends on rustworkx's free list and CPython address reuse). "
